@@ -61,6 +61,9 @@ class Harness(object):
         clock.set_now(self.now)
         clock.install()
         self.model = {}   # subject index -> {source: (nooa_epoch_or_0, info)}
+        self.sources = list(SOURCES)
+        self.compare_every = 1
+        self.nops = 0
         self.nsubj = nsubj
         self.trace = []
 
@@ -167,7 +170,9 @@ class Harness(object):
                 self.hit("file_reopens")
             except AttributeError:
                 self.hit("file_reopen_unavailable")
-        self.compare()
+        self.nops += 1
+        if self.nops % self.compare_every == 0:
+            self.compare()
 
     # ---------------------------------------------------------------- compare
     def compare(self):
@@ -176,7 +181,7 @@ class Harness(object):
             c = b.cache if self.via_population else b
             for s in subs:
                 nid = self.nid(s)
-                for e in SOURCES:
+                for e in self.sources:
                     for check in (True, False):
                         want = self.m_get(s, e, check)
                         try:
@@ -299,7 +304,43 @@ def gen_cases(tier, seed):
         for i in (range(0, len(first), 5) if tier == "quick" else range(len(first))):
             cases.append({"id": "exhaustive-d%d-first%02d-tz%s" % (depth - 1, i, tz), "kind": "exhaustive", "sig": ["exhaustive-tz", tz, depth - 1, i], "first": i,
                           "depth": depth - 1, "pop": i % 2, "tz": tz})
+    # scale: one subject known to many sources (attribute authorities of a virtual organisation), part of them expired or reset, and
+    # further stores from sources not seen before
+    for n in ((12, 40, 130) if tier == "quick" else (12, 31, 32, 33, 40, 64, 130, 400)):
+        for pop in (0, 1):
+            cases.append({"id": "many-sources-%d-%s" % (n, "population" if pop else "cache"), "kind": "scale", "sig": ["many-sources", n, pop], "n": n, "pop": pop})
     return cases
+
+
+def run_scale(case, ctx):
+    counters, viols = {}, []
+    rng = random.Random("%s/%s" % (ctx.seed, case["id"]))
+    n = case["n"]
+    h = Harness(ctx.scratch, case["id"], counters, case["pop"], 2)
+    h.sources = ["https://aa%03d.example.org/aa" % i for i in range(n + 8)]
+    h.compare_every = max(1, n // 6)
+    try:
+        for i, e in enumerate(h.sources[:n]):
+            h.apply(("set", 0, e, rng.choice([-3000, -2, 100, 3000]), "int", {"role": ["r%d" % i], "mail": ["m%d@example.org" % (i % 3)]}))
+            if i % 5 == 3:
+                h.apply(("reset", 0, e))
+            if i % 7 == 0:
+                h.apply(("set", 1, e, 500, "int", {"role": ["other-%d" % i]}))
+        h.apply(("tick", 150))
+        for e in h.sources[n:]:            # sources not seen before
+            h.apply(("set", 0, e, 1000, "int", {"role": ["late"]}))
+            h.compare()
+        h.apply(("tick", 5000))
+        h.compare()
+        h.apply(("reopen",))
+        h.compare()
+    except Violation as v:
+        viols.append({"key": v.key, "what": "[%d sources for one subject] %s" % (n, v.what), "detail": {"history_length": len(h.trace)}})
+    finally:
+        h.close()
+        _rm(h.path)
+    return {"outcome": "violations" if viols else "held", "nontrivial": True, "violations": viols, "counters": counters, "sigs": [["many-sources", n, case["pop"]]],
+            "evals": counters.get("sets", 0)}
 
 
 def run_case(case, ctx):
@@ -316,6 +357,8 @@ def run_case(case, ctx):
 
 
 def _run_case(case, ctx):
+    if case["kind"] == "scale":
+        return run_scale(case, ctx)
     counters, viols, sigs = {}, [], []
     rng = random.Random("%s/%s" % (ctx.seed, case["id"]))
     if case["kind"] == "exhaustive":
